@@ -15,8 +15,14 @@ use crate::shims::tokio;
 //@item rodbus/src/tcp/client.rs | TcpChannelTask
 
 impl TcpTaskConnectionHandler {
+// [C09] a channel configured for TLS never hands a plain-text layer to the session: the layer comes out of the handshake under the
+// stored configuration; a plain TCP channel gets a plain layer
 //@fn rodbus/src/tcp/client.rs | TcpTaskConnectionHandler::handle | tags=C09,C13
 //@|    ensures r is Ok ==> r->Ok_0.sent.len() == 0,
+//@|        *old(self) matches TcpTaskConnectionHandler::Tls(c) ==> (r is Ok ==> r->Ok_0.tls_by == Some(c.id)),
+//@|        (r is Ok && *old(self) is Tcp) ==> r->Ok_0.tls_by is None,
+//@|        *old(self) matches TcpTaskConnectionHandler::Tls(c) ==> *final(self) matches TcpTaskConnectionHandler::Tls(c2) && c2.id == c.id,
+//@|        *old(self) is Tcp ==> *final(self) is Tcp,
 }
 
 impl TcpChannelTask {
